@@ -159,11 +159,15 @@ def main() -> int:
                 mod = importlib.import_module(modname)
                 if hasattr(mod, "search"):
                     found = mod.search(args.tier, Budget(total), common.rng(f"{prop}:search:{modname}"), arg, disagreements)
-                    for v in found:
-                        v = dict(v, stream=f"search:{modname}", stream_module=modname)
-                        k = match_known(prop, v, known)
-                        (known_hits if k else fresh).append((v, k))
-                    searched.append(modname)
+                else:
+                    # generic search: the stream's own oracle on the real code, deeper tier, fresh randomness
+                    r2 = mod.run("thorough", Budget(2 * total), common.rng(f"{prop}:search:{modname}"), arg)
+                    found = list(r2.violations)
+                for v in found:
+                    v = dict(v, stream=f"search:{modname}", stream_module=modname)
+                    k = match_known(prop, v, known)
+                    (known_hits if k else fresh).append((v, k))
+                searched.append(modname)
             except Exception as e:
                 infra_errors.append(f"search {modname}: {type(e).__name__}: {e}")
 
